@@ -2276,6 +2276,13 @@ func (db *DB) sync(ctx context.Context, checkpointing bool, exec *syncExecutor, 
 		}
 	}
 
+	// Ensure the frames copied above were not overwritten while being read.
+	if len(pageMap) > 0 {
+		if err := verifyWALSalts(walFile, rd.salt1, rd.salt2); err != nil {
+			return result, err
+		}
+	}
+
 	// Encode final trailer to the end of the LTX file.
 	db.setSyncDiagPhase(diagPhaseCloseLTX, func(s *diagState) {
 		s.txID = txID
@@ -2367,6 +2374,22 @@ func (db *DB) sync(ctx context.Context, checkpointing bool, exec *syncExecutor, 
 	db.Logger.Debug("db sync", "status", "ok")
 
 	return result, nil
+}
+
+// verifyWALSalts returns an error if the WAL header no longer carries the given
+// salts. The long-running read transaction does not stop SQLite from restarting
+// a fully checkpointed WAL (a reader that began on such a WAL holds read mark 0),
+// and a restart rewrites the header before it overwrites the first frame. If the
+// header is unchanged after page data was read from the WAL, that data is intact.
+func verifyWALSalts(walFile *os.File, salt1, salt2 uint32) error {
+	hdr := make([]byte, WALHeaderSize)
+	if _, err := walFile.ReadAt(hdr, 0); err != nil {
+		return fmt.Errorf("wal changed during copy: reread wal header: %w", err)
+	}
+	if s1, s2 := binary.BigEndian.Uint32(hdr[16:]), binary.BigEndian.Uint32(hdr[20:]); s1 != salt1 || s2 != salt2 {
+		return fmt.Errorf("wal restarted during copy: salt=(%08x,%08x), expected (%08x,%08x)", s1, s2, salt1, salt2)
+	}
+	return nil
 }
 
 func (db *DB) writeLTXFromDB(ctx context.Context, enc *ltx.Encoder, dbFile *os.File, walFile *os.File, commit uint32, pageMap map[uint32]int64) error {
@@ -2769,6 +2792,7 @@ type snapshotReadPosition struct {
 	pos          ltx.Pos
 	pageSize     int
 	walEndOffset int64
+	walSalt      *[2]uint32 // WAL generation walEndOffset refers to, if beyond the header
 	db           *DB
 	closeOnce    sync.Once
 }
@@ -2822,7 +2846,7 @@ func (db *DB) snapshotPosition(ctx context.Context) (*snapshotReadPosition, erro
 		return nil, fmt.Errorf("pos: %w", err)
 	}
 
-	walEndOffset, err := db.snapshotWALEndOffset(pos)
+	walEndOffset, walSalt, err := db.snapshotWALEndOffset(pos)
 	if err != nil {
 		return nil, err
 	}
@@ -2840,6 +2864,7 @@ func (db *DB) snapshotPosition(ctx context.Context) (*snapshotReadPosition, erro
 		pos:          pos,
 		pageSize:     pageSize,
 		walEndOffset: walEndOffset,
+		walSalt:      walSalt,
 		db:           db,
 	}, nil
 }
@@ -2847,24 +2872,24 @@ func (db *DB) snapshotPosition(ctx context.Context) (*snapshotReadPosition, erro
 // snapshotWALEndOffset returns the WAL offset a snapshot may read up to for
 // the given position. db.syncState is read without db.mu because every writer
 // mutates it while holding execSem, which the caller also holds.
-func (db *DB) snapshotWALEndOffset(pos ltx.Pos) (int64, error) {
+func (db *DB) snapshotWALEndOffset(pos ltx.Pos) (int64, *[2]uint32, error) {
 	if pos.TXID == 0 {
 		if db.syncState.lastSyncedWALOffset > 0 {
-			return db.syncState.lastSyncedWALOffset, nil
+			return db.syncState.lastSyncedWALOffset, nil, nil
 		}
-		return WALHeaderSize, nil
+		return WALHeaderSize, nil, nil
 	}
 
 	ltxPath := db.LTXPath(0, pos.TXID, pos.TXID)
 	f, err := os.Open(ltxPath)
 	if err != nil {
-		return 0, NewLTXError("open", ltxPath, 0, uint64(pos.TXID), uint64(pos.TXID), err)
+		return 0, nil, NewLTXError("open", ltxPath, 0, uint64(pos.TXID), uint64(pos.TXID), err)
 	}
 	defer func() { _ = f.Close() }()
 
 	dec := ltx.NewDecoder(f)
 	if err := dec.DecodeHeader(); err != nil {
-		return 0, NewLTXError("decode", ltxPath, 0, uint64(pos.TXID), uint64(pos.TXID), fmt.Errorf("%w: %w", ErrLTXCorrupted, err))
+		return 0, nil, NewLTXError("decode", ltxPath, 0, uint64(pos.TXID), uint64(pos.TXID), fmt.Errorf("%w: %w", ErrLTXCorrupted, err))
 	}
 
 	// Compare WAL headers. If the WAL was restarted since this LTX file was
@@ -2872,22 +2897,22 @@ func (db *DB) snapshotWALEndOffset(pos ltx.Pos) (int64, error) {
 	// apply to the current WAL.
 	hdr, err := readWALHeader(db.WALPath())
 	if os.IsNotExist(err) || errors.Is(err, io.EOF) || errors.Is(err, io.ErrUnexpectedEOF) {
-		return WALHeaderSize, nil
+		return WALHeaderSize, nil, nil
 	} else if err != nil {
-		return 0, fmt.Errorf("cannot read wal header: %w", err)
+		return 0, nil, fmt.Errorf("cannot read wal header: %w", err)
 	}
 	salt1 := binary.BigEndian.Uint32(hdr[16:])
 	salt2 := binary.BigEndian.Uint32(hdr[20:])
 	if salt1 != dec.Header().WALSalt1 || salt2 != dec.Header().WALSalt2 {
-		return WALHeaderSize, nil
+		return WALHeaderSize, nil, nil
 	}
 
 	// The cached offset is only meaningful for the WAL generation the last
 	// LTX file was copied from, which the salt comparison above established.
 	if db.syncState.lastSyncedWALOffset > 0 {
-		return db.syncState.lastSyncedWALOffset, nil
+		return db.syncState.lastSyncedWALOffset, &[2]uint32{salt1, salt2}, nil
 	}
-	return dec.Header().WALOffset + dec.Header().WALSize, nil
+	return dec.Header().WALOffset + dec.Header().WALSize, &[2]uint32{salt1, salt2}, nil
 }
 
 func (db *DB) snapshotReader(ctx context.Context, pos *snapshotReadPosition) (io.ReadCloser, error) {
@@ -2927,6 +2952,14 @@ func (db *DB) snapshotReader(ctx context.Context, pos *snapshotReadPosition) (io
 		rd, err := NewWALReader(walFile, db.Logger.With(LogKeySubsystem, LogSubsystemWALReader))
 		if err != nil {
 			pw.CloseWithError(fmt.Errorf("new wal reader: %w", err))
+			return
+		}
+
+		// The end offset only applies to the WAL generation it was captured
+		// from. The read transaction does not stop a fully checkpointed WAL
+		// from being restarted, so make sure it is still the same one.
+		if pos.walSalt != nil && (rd.salt1 != pos.walSalt[0] || rd.salt2 != pos.walSalt[1]) {
+			pw.CloseWithError(fmt.Errorf("wal restarted since snapshot position was captured: salt=(%08x,%08x), expected (%08x,%08x)", rd.salt1, rd.salt2, pos.walSalt[0], pos.walSalt[1]))
 			return
 		}
 
@@ -2986,6 +3019,14 @@ func (db *DB) snapshotReader(ctx context.Context, pos *snapshotReadPosition) (io
 		if err := db.writeLTXFromDB(ctx, enc, dbFile, walFile, commit, pageMap); err != nil {
 			pw.CloseWithError(fmt.Errorf("write snapshot ltx: %w", err))
 			return
+		}
+
+		// Ensure the frames copied above were not overwritten while being read.
+		if len(pageMap) > 0 {
+			if err := verifyWALSalts(walFile, rd.salt1, rd.salt2); err != nil {
+				pw.CloseWithError(err)
+				return
+			}
 		}
 
 		if err := enc.Close(); err != nil {
